@@ -21,7 +21,7 @@ def run(ctx):
         raise core.ToolFailure("C02 invariant %s is violated in DumpModel.tla itself" % mc.violated)
     reps = 3 if tier == "quick" else 12
     rep = ctx.read_harness_report(ctx.harness("replay_dumpmodel", [mc.out_path, reps], out_name="replay_dumpmodel.out", timeout=3000))
-    for need in ("modules:big", "modules:little", "threads:big", "memory:little", "directory:big", "names:little", "misc:big", "crashpad:big", "crashpad:little", "sysinfo:big", "sysinfo:little", "templates"):
+    for need in ("modules:big", "modules:little", "threads:big", "memory:little", "directory:big", "names:little", "misc:big", "crashpad:big", "crashpad:little", "sysinfo:big", "sysinfo:little", "templates", "raw-record-compared-across-byte-orders", "context-register-compared-across-byte-orders"):
         if rep["classes"].get(need, 0) == 0:
             raise core.ToolFailure("vacuous: no replayed case of class %s" % need)
     cov = {
